@@ -37,7 +37,10 @@ RULE = ("cases = (a) documented spellings of boundary and random IPv4 addresses 
         "last occurrence alone; (i) subnet files for -s and -X: lines sharing address and width but differing in port / "
         "range, comments, blank and indented lines, exact duplicates, a bad line, expected includes/excludes at "
         "client.main = every listed line with its own ports; plus library "
-        "streams (regex engine, glibc numeric getaddrinfo, inet_aton/pton/ntop, ipaddress, int()). A case is "
+        "streams (regex engine, glibc numeric getaddrinfo, inet_aton/pton/ntop, ipaddress, int()). Verbosity is a "
+        "dimension of every case: the level comes from the rotation [0,0,3,0,2,0,3,1] shifted by the seed, is put on "
+        "the real command line as -v/-vv/-vvv/--verbose (argv front or end, SSHUTTLE_ARGS, or split between both) for "
+        "cases through cmdline.main and set in helpers.verbose around direct calls; the oracle does not change. A case is "
         "non-trivial when it reached getaddrinfo, or was rejected by a specific check, or decomposed a "
         "multi-part specification; distinct = distinct input string per stream")
 MANIFEST = dict(
@@ -171,6 +174,13 @@ class Real:
         options.socket = SocketShim(self.log)
         helpers.verbose = 0
         self.captured = None
+        # verbosity is a dimension of every case (see `begin_case`)
+        self.seed = 0
+        self.n = 0
+        self.level = 0
+        self.slot = 0
+        self.last = (None, None)
+        self.ctx = None
 
         def fake_client_main(*a):
             self.captured = a
@@ -186,6 +196,32 @@ class Real:
         else:
             os.environ['SSHUTTLE_ARGS'] = env
 
+    def begin_case(self):
+        """Every case runs at a verbosity level taken from LEVELS, shifted by the check's seed, so
+        that over seeds 0..7 every directed case has run at every level; `slot` chooses how the
+        -v flags are spelled and where they go.  What an argument means must not depend on it."""
+        self.n += 1
+        self.level = LEVELS[(self.n + self.seed) % len(LEVELS)]
+        self.slot = (self.n // len(LEVELS) + self.seed) % 4
+        if self.ctx is not None:
+            self.ctx.hist('verbosity:%d' % self.level)
+
+    def with_verbosity(self, env_tokens, argv):
+        """the same command line at the current verbosity level: -v / -vv / -vvv / --verbose in
+        front of or behind the other arguments, on the command line, in SSHUTTLE_ARGS, or split"""
+        lv = self.level
+        argv = list(argv)
+        if lv <= 0:
+            return env_tokens, argv
+        comb = '-' + 'v' * lv
+        if self.slot == 0:
+            return env_tokens, [comb] + argv
+        if self.slot == 1:
+            return env_tokens, argv + ['-v'] * lv
+        if self.slot == 2:
+            return [comb] + list(env_tokens or []), argv
+        return ['--verbose'] + list(env_tokens or []), (['-' + 'v' * (lv - 1)] if lv > 1 else []) + argv
+
     def main_with_env(self, env_tokens, argv, stop_after_parse):
         """the real cmdline.main with SSHUTTLE_ARGS / sys.argv set; returns (namespace produced by the
         real parse_args call inside main, arguments handed to client.main or None)"""
@@ -199,15 +235,18 @@ class Real:
             if stop_after_parse:
                 raise _Stop()
             return ns
+        env_tokens, argv = self.with_verbosity(env_tokens, argv)
         if env_tokens is None:
             os.environ.pop('SSHUTTLE_ARGS', None)
         else:
             os.environ['SSHUTTLE_ARGS'] = shlex.join(env_tokens)
         sys.argv = ['sshuttle'] + list(argv)
         self.captured = None
+        self.last = (None, None)
         parser.parse_args = spy
         try:
             kind, val = self.quiet(self.cmdline.main)
+            self.last = (kind, val)
         finally:
             parser.__dict__.pop('parse_args', None)
             os.environ.pop('SSHUTTLE_ARGS', None)
@@ -218,6 +257,7 @@ class Real:
         """run fn with stdout/stderr swallowed; returns ('ok', value) | ('exc', exception)"""
         so, se = sys.stdout, sys.stderr
         sys.stdout, sys.stderr = io.StringIO(), io.StringIO()
+        self.helpers.verbose = self.level      # direct calls run at the case's level; main sets its own from -v
         try:
             return 'ok', fn(*a)
         except BaseException as e:  # noqa
@@ -225,7 +265,11 @@ class Real:
                 raise
             return 'exc', e
         finally:
+            self.helpers.verbose = 0
             sys.stdout, sys.stderr = so, se
+
+
+LEVELS = [0, 0, 3, 0, 2, 0, 3, 1]
 
 
 class _Stop(Exception):
@@ -301,6 +345,7 @@ def run_subnet(R, s):
 
 def subnet_case(ctx, R, s, expect=None, what='garbage'):
     """expect = (family, address int, width, fport, lport) for a documented spelling"""
+    R.begin_case()
     direct, layer, val = run_subnet(R, s)
     line = 'sub %s%s' % (hx(s), idna_tokens(R.log))
     ctx.hist('subnet:' + what)
@@ -353,6 +398,7 @@ def run_ipport(R, s):
 
 
 def ipport_case(ctx, R, s, expect=None):
+    R.begin_case()
     direct, layer, val = run_ipport(R, s)
     ctx.hist('ipport-outcome:' + direct.split(' ')[0])
     if expect is not None:
@@ -371,14 +417,12 @@ def ipport_case(ctx, R, s, expect=None):
 
 
 def run_listen(R, s):
-    """cmdline.main with --listen s"""
+    """cmdline.main with --listen s (at the current verbosity level)"""
     R.log.idna = {}
-    os.environ.pop('SSHUTTLE_ARGS', None)
-    sys.argv = ['sshuttle', '--listen=' + s, '0/0']
-    R.captured = None
-    kind, val = R.quiet(R.cmdline.main)
-    if kind == 'ok' and R.captured is not None:
-        v6, v4 = R.captured[0], R.captured[1]
+    _ns, captured, _args = R.main_with_env(None, ['--listen=' + s, '0/0'], stop_after_parse=False)
+    kind, val = R.last
+    if kind == 'ok' and captured is not None:
+        v6, v4 = captured[0], captured[1]
 
         def sh(x):
             return '-' if x is None else 'auto' if x == 'auto' else '%s,%d' % (x[0], x[1])
@@ -391,6 +435,7 @@ def run_listen(R, s):
 
 
 def listen_case(ctx, R, s, expect=None):
+    R.begin_case()
     out = run_listen(R, s)
     ctx.hist('listen-outcome:' + out.split(' ')[0])
     if expect is not None and out != expect:
@@ -411,6 +456,7 @@ def run_hostport(R, s):
 
 
 def hostport_case(ctx, R, s, expect=None):
+    R.begin_case()
     out, val = run_hostport(R, s)
     ctx.hist('hostport-outcome:' + out.split(' ')[0])
     if expect is not None and val != expect:
@@ -934,6 +980,7 @@ def listen_env_cases(ctx, R, rng):
         if not env_occ and not cmd_occ:
             continue
         env_t, cmd_t = toks(env_occ), toks(cmd_occ)
+        R.begin_case()
         last = (cmd_occ or env_occ)[-1]
         expect = 'ok v6=%s v4=%s' % (last[1], last[2])
         out, ns = run_listen_env(R, env_t, cmd_t)
@@ -1022,6 +1069,7 @@ FILE_FIXED = [
 
 
 def file_case(ctx, R, tmpdir, content, expect, option, n):
+    R.begin_case()
     path = os.path.join(tmpdir, 'subnets-%d.txt' % n)
     with open(path, 'w', encoding='ascii', newline='') as f:
         f.write(content)
@@ -1166,6 +1214,7 @@ def env_cases(ctx, R, rng):
             return out
         env_t, cmd_t = toks(env_occ), toks(cmd_occ)
         R.log.idna = {}
+        R.begin_case()
         ns, captured, _args = R.main_with_env(env_t, cmd_t + ['10.0.0.0/8'], stop_after_parse=o not in CLIENT_ARG_INDEX)
         if ns is None:
             ctx.hist('env:parse-error')
@@ -1215,6 +1264,14 @@ def rx_texts_from_source():
 def gen_cases(ctx):
     rng = ctx.rng
     R = Real()
+    R.seed = ctx.seed
+    R.ctx = ctx
+    record = ctx.violation
+
+    def violation_at_level(key, case, *a, **k):
+        # the level and the spelling of the -v flags are part of the case, so that --replay restores them
+        return record(key, dict(case, level=R.level, vslot=R.slot), *a, **k)
+    ctx.violation = violation_at_level
     cases = []
     try:
         # documented spellings
@@ -1276,6 +1333,7 @@ def gen_cases(ctx):
         cases += listen_env_cases(ctx, R, rng)
         cases += file_cases(ctx, R, rng)
     finally:
+        ctx.violation = record
         R.close()
     cases += lib_cases(ctx, rng, rx_texts_from_source())
     return cases
@@ -1331,8 +1389,15 @@ def run(ctx):
 
 
 def replay(ctx, rep):
+    fails, info = _replay(ctx, rep)
+    return fails, '%s [verbosity level %d, -v placement %d]' % (
+        info, int(rep['case'].get('level', 0)), int(rep['case'].get('vslot', 0)))
+
+
+def _replay(ctx, rep):
     case = rep['case']
     R = Real()
+    R.level, R.slot = int(case.get('level', 0)), int(case.get('vslot', 0))
     try:
         st = case.get('stream')
         if st == 'subnet':
